@@ -177,6 +177,14 @@ func (c *roCase) run() {
 		if expectErr && !strings.HasPrefix(res, "ERR") {
 			c.fail(fmt.Sprintf("%s on a read-only table did not fail: %s", what, res))
 		}
+		// … and it fails for being a write, every time: an earlier refused write leaves no transaction open (F57)
+		if expectErr && strings.HasPrefix(res, "ERR") && !strings.HasPrefix(res, "ERR:readonly") {
+			c.fail(fmt.Sprintf("%s on a read-only table failed, but not for being a write: %s", what, res))
+		}
+		// no statement, refused or not, leaves a write time on the connection
+		if wt := sqlh.QS(ro, "select write_time from s3db_conn"); wt != "N" {
+			c.fail(fmt.Sprintf("after %s the connection has the write_time %s", what, wt))
+		}
 		if m := c.roMutations(); len(m) > 0 {
 			c.fail(fmt.Sprintf("the read-only table modified the bucket after %s: %v", what, m[:min(len(m), 4)]))
 		}
@@ -201,7 +209,7 @@ func roCmd(args []string) int {
 	fs.Parse(args)
 	setKnown(*kn)
 	st := NewStats("ro", *seed)
-	st.Rule = "buckets holding 0-5 unmerged versions (inserts, updates, deletes by up to 4 writers), then a read-only table runs 12-32 random operations: selects, write attempts (single, ranges, inside transactions, repeated), s3db_refresh, s3db_version, s3db_changes, s3db_vacuum attempts with past/future cutoffs; after every operation: no PUT/DELETE by any client of the read-only table in the request log, rows unchanged, writes that match a row fail; distinct = distinct operation sequence (all non-trivial)"
+	st.Rule = "buckets holding 0-5 unmerged versions (inserts, updates, deletes by up to 4 writers), then a read-only table runs 12-32 random operations: selects, write attempts (single, ranges, inside transactions, repeated), s3db_refresh, s3db_version, s3db_changes, s3db_vacuum attempts with past/future cutoffs; after every operation: no PUT/DELETE by any client of the read-only table in the request log, rows unchanged, writes that match a row fail with the read-only error every time (never 'transaction already in progress'), no write time is left on the connection; distinct = distinct operation sequence (all non-trivial)"
 	isChild, from, to := childRange()
 	if !isChild {
 		NewEmitter(*outp+".ops", *outp+".exp").Close()
